@@ -19,6 +19,7 @@ import (
 	"io"
 	"net"
 	"net/http"
+	"regexp"
 	"runtime"
 	"strings"
 	"sync"
@@ -329,6 +330,84 @@ func stackBurst(c *vlib.Cases, r *vlib.Rng, engine string, n int, prefix, epType
 	c.Emit(map[string]any{"kind": "stack", "engine": engine, "clients": n, "prefix": prefix, "type": epType, "base": base, "preserve": preserve, "impl": map[string]any{"requests": res}})
 }
 
+var nonceRe = regexp.MustCompile(`nonce-[0-9a-f]+`)
+
+// stackTranslated: N concurrent Anthropic requests that Olla translates to OpenAI chat requests
+// ("...and likewise for translated requests"): every upstream body must carry its own client's
+// nonces and model and nobody else's.
+func stackTranslated(c *vlib.Cases, r *vlib.Rng, engine string, n int) {
+	b := stack.NewBackend("A")
+	defer b.Close()
+	b.SetScript(func(_ int, s *stack.Seen) stack.Behaviour {
+		var m struct {
+			Model string `json:"model"`
+		}
+		json.Unmarshal(s.Body, &m)
+		found := nonceRe.FindAllString(string(s.Body), -1)
+		echo := strings.Join(found, ",") + "|" + m.Model + "|" + s.Path
+		js, _ := json.Marshal(map[string]any{"id": "c1", "object": "chat.completion", "model": m.Model,
+			"choices": []any{map[string]any{"index": 0, "finish_reason": "stop", "message": map[string]any{"role": "assistant", "content": echo}}},
+			"usage":   map[string]any{"prompt_tokens": 1, "completion_tokens": 1, "total_tokens": 2}})
+		return stack.Behaviour{Kind: "ok", Status: 200, Headers: [][2]string{{"Content-Type", "application/json"}}, Body: js}
+	})
+	b.Listing = func(p string) (int, string) {
+		if !strings.HasSuffix(p, "/v1/models") {
+			return 0, ""
+		}
+		var ids []string
+		for k := 0; k < 8; k++ {
+			ids = append(ids, fmt.Sprintf(`{"id":"model-%d","object":"model"}`, k))
+		}
+		return 200, `{"object":"list","data":[` + strings.Join(ids, ",") + `]}`
+	}
+	s, err := stack.Start(stack.Opts{Engine: engine, Balancer: "priority", ModelDiscovery: true, EPs: []stack.EP{{Name: "A", Type: "openai", Priority: 1, Backend: b}}})
+	if err != nil {
+		c.Emit(map[string]any{"kind": "xlate", "impl": map[string]any{"start_err": err.Error()}})
+		return
+	}
+	defer s.Stop()
+	type one struct {
+		Want   string `json:"want"`
+		Got    string `json:"got"`
+		Status int    `json:"status"`
+		Err    string `json:"err"`
+	}
+	res := make([]one, n)
+	rngs := make([]*vlib.Rng, n)
+	for i := range rngs {
+		rngs[i] = r.Fork()
+	}
+	var wg sync.WaitGroup
+	for i := 0; i < n; i++ {
+		wg.Add(1)
+		go func(i int) {
+			defer wg.Done()
+			rr := rngs[i]
+			n1, n2 := fmt.Sprintf("nonce-%012x", rr.U64()&0xffffffffffff), fmt.Sprintf("nonce-%012x", rr.U64()&0xffffffffffff)
+			model := fmt.Sprintf("model-%d", rr.Intn(8))
+			pad := strings.Repeat("p", rr.Intn(400))
+			body, _ := json.Marshal(map[string]any{"model": model, "max_tokens": 64, "system": "sys " + n1,
+				"messages": []any{map[string]any{"role": "user", "content": "hello " + n2 + " " + pad}}})
+			raw := stack.Request("POST", "/olla/anthropic/v1/messages", s.Addr, [][2]string{{"Content-Type", "application/json"}, {"anthropic-version", "2023-06-01"}}, body, false)
+			rp := stack.Do(s.Addr, raw, 20*time.Second)
+			o := one{Want: n1 + "," + n2 + "|" + model + "|/v1/chat/completions", Status: rp.Status, Err: rp.Err}
+			var ar struct {
+				Content []struct {
+					Text string `json:"text"`
+				} `json:"content"`
+			}
+			if json.Unmarshal(rp.Body, &ar) == nil && len(ar.Content) > 0 {
+				o.Got = ar.Content[0].Text
+			} else {
+				o.Got = "unparsed:" + string(rp.Body[:min(len(rp.Body), 120)])
+			}
+			res[i] = o
+		}(i)
+	}
+	wg.Wait()
+	c.Emit(map[string]any{"kind": "xlate", "engine": engine, "clients": n, "impl": map[string]any{"requests": res}})
+}
+
 func main() {
 	tier := vlib.Tier()
 	r := vlib.NewRng(vlib.Seed())
@@ -424,6 +503,18 @@ func main() {
 		for _, cf := range cfgs {
 			stackBurst(c, r, engine, 4, cf.prefix, cf.ty, cf.base, cf.preserve)
 			c.Count("stack.prefixes")
+		}
+	}
+	// translated (Anthropic -> OpenAI) requests under concurrency
+	xb := 6
+	if tier == "thorough" {
+		xb = 40
+	}
+	for _, engine := range []string{"sherpa", "olla"} {
+		stackTranslated(c, r, engine, 2)
+		for i := 0; i < xb; i++ {
+			stackTranslated(c, r, engine, 64)
+			c.Count("xlate." + engine)
 		}
 	}
 	c.Close(map[string]any{"exhaustive": true, "exhaustive_note": "all interleavings of the op chains (inspect;read|exec) of 2–3 requests for each sampled body set; everything else sampled"})
